@@ -173,7 +173,7 @@ impl CtxSpec {
             }
         }
         for (n, v) in &self.vars {
-            root.add_variable_from_value(n.clone(), v.clone());
+            define(&mut root, n, v);
         }
         fn go<R>(parent: &Context, scopes: &[Vec<(String, Value)>], f: impl FnOnce(&Context) -> R) -> R {
             match scopes.split_first() {
@@ -181,7 +181,7 @@ impl CtxSpec {
                 Some((s, rest)) => {
                     let mut child = parent.new_inner_scope();
                     for (n, v) in s {
-                        child.add_variable_from_value(n.clone(), v.clone());
+                        define(&mut child, n, v);
                     }
                     go(&child, rest, f)
                 }
@@ -189,6 +189,86 @@ impl CtxSpec {
         }
         go(&root, &self.scopes, f)
     }
+}
+
+/// A CEL value presented as the plain Rust data a host would hold (integers, floats, strings,
+/// vectors, maps, the crate's `Timestamp` / `Duration` wrappers), for `Context::add_variable`.
+struct HostData<'a>(&'a Value);
+
+fn host_representable(v: &Value) -> bool {
+    match v {
+        Value::Function(..) => false,
+        // chrono's own `Serialize` for `DateTime` panics - with every serializer, serde_json
+        // included - when the local time (instant + offset) lies outside `NaiveDateTime`'s range;
+        // such timestamps exist as `Value`s but a host cannot pass them through serde at all
+        Value::Timestamp(t) => t.naive_utc().checked_add_signed(TimeDelta::seconds(t.offset().local_minus_utc() as i64)).is_some(),
+        Value::List(l) => l.iter().all(host_representable),
+        Value::Map(m) => m.map.values().all(host_representable),
+        _ => true,
+    }
+}
+
+impl serde::Serialize for HostData<'_> {
+    fn serialize<S: serde::Serializer>(&self, s: S) -> Result<S::Ok, S::Error> {
+        use serde::ser::{SerializeMap, SerializeSeq};
+        match self.0 {
+            Value::Int(i) => s.serialize_i64(*i),
+            Value::UInt(u) => s.serialize_u64(*u),
+            Value::Float(f) => s.serialize_f64(*f),
+            Value::Bool(b) => s.serialize_bool(*b),
+            Value::String(x) => s.serialize_str(x),
+            Value::Bytes(b) => s.serialize_bytes(b),
+            Value::Null => s.serialize_unit(),
+            Value::Timestamp(t) => cel_interpreter::Timestamp(*t).serialize(s),
+            Value::Duration(d) => cel_interpreter::Duration(*d).serialize(s),
+            Value::List(l) => {
+                let mut q = s.serialize_seq(Some(l.len()))?;
+                for x in l.iter() {
+                    q.serialize_element(&HostData(x))?;
+                }
+                q.end()
+            }
+            Value::Map(m) => {
+                let mut q = s.serialize_map(Some(m.map.len()))?;
+                for (k, x) in m.map.iter() {
+                    match k {
+                        cel_interpreter::objects::Key::Int(i) => q.serialize_entry(i, &HostData(x))?,
+                        cel_interpreter::objects::Key::Uint(u) => q.serialize_entry(u, &HostData(x))?,
+                        cel_interpreter::objects::Key::Bool(b) => q.serialize_entry(b, &HostData(x))?,
+                        cel_interpreter::objects::Key::String(t) => q.serialize_entry(t.as_str(), &HostData(x))?,
+                    }
+                }
+                q.end()
+            }
+            Value::Function(..) => Err(serde::ser::Error::custom("function values have no host data form")),
+        }
+    }
+}
+
+/// Defines one context variable.  A host hands values to a context in two ways, and both are
+/// exercised: for about half of the (name, value) pairs - chosen by a hash of the pair, so that a
+/// case always replays the same way - the value is supplied as plain Rust data through
+/// `Context::add_variable` (the serde conversion), otherwise as a ready-made `Value` through
+/// `add_variable_from_value`.  Values the conversion refuses take the second way.
+pub fn supplied_as_host_data(name: &str, v: &Value) -> bool {
+    host_representable(v) && via_host_data(name, v)
+}
+
+pub fn define(ctx: &mut Context, name: &str, v: &Value) {
+    if supplied_as_host_data(name, v) {
+        if ctx.add_variable(name.to_string(), HostData(v)).is_ok() {
+            return;
+        }
+    }
+    ctx.add_variable_from_value(name.to_string(), v.clone());
+}
+
+pub fn via_host_data(name: &str, v: &Value) -> bool {
+    let mut h: u64 = 0xcbf29ce484222325;
+    for b in name.bytes().chain(value_to_sx(v).to_text().bytes()) {
+        h = (h ^ b as u64).wrapping_mul(0x100000001b3);
+    }
+    (h >> 17) & 1 == 1
 }
 
 fn register_builtin(ctx: &mut Context, name: &str, b: &str) {
@@ -390,6 +470,12 @@ pub fn register_host(ctx: &mut Context, name: &str, sig: &[&str], body: &Body, l
         ["pos-value", "this-value"] => host!(ctx, name, log, body; a: V, b: This<V>),
         ["pos-value", "this-value", "pos-value"] => host!(ctx, name, log, body; a: V, b: This<V>, c: V),
         ["pos-int", "this-str"] => host!(ctx, name, log, body; a: i64, b: This<Str>),
+        ["expr", "args"] => host!(ctx, name, log, body; a: Expression, b: Arguments),
+        ["args", "expr"] => host!(ctx, name, log, body; a: Arguments, b: Expression),
+        ["expr", "pos-value"] => host!(ctx, name, log, body; a: Expression, b: V),
+        ["expr", "expr"] => host!(ctx, name, log, body; a: Expression, b: Expression),
+        ["ident", "args"] => host!(ctx, name, log, body; a: Identifier, b: Arguments),
+        ["args", "args"] => host!(ctx, name, log, body; a: Arguments, b: Arguments),
         ["ftx"] => host_ftx!(ctx, name, log, body;),
         ["ftx", "pos-value"] => host_ftx!(ctx, name, log, body; a: V),
         ["ftx", "this-value"] => host_ftx!(ctx, name, log, body; a: This<V>),
@@ -434,6 +520,12 @@ pub fn host_catalogue() -> Vec<Vec<&'static str>> {
         "pos-value this-value",
         "pos-value this-value pos-value",
         "pos-int this-str",
+        "expr args",
+        "args expr",
+        "expr pos-value",
+        "expr expr",
+        "ident args",
+        "args args",
         "ftx",
         "ftx pos-value",
         "ftx this-value",
